@@ -11,26 +11,27 @@ import (
 
 // Config is the per-run configuration (drawn by the scenario generator, stored in replay files).
 type Config struct {
-	HomeBits   int  `json:"home_bits"`
-	NFBits     int  `json:"nf_bits"`
-	NFLow      bool `json:"nf_low,omitempty"` // the netfilter subnet is the first (not the last) subnet of NFBits inside home: same network address as home, router inside it
-	HostLLA    bool `json:"host_lla"`
-	HostGUA    bool `json:"host_gua"`
-	ProbeMin   int  `json:"probe_min"`
-	OfflineMin int  `json:"offline_min"`
-	PurgeMin   int  `json:"purge_min"`
-	ARP        bool `json:"arp"`
-	ICMP6      bool `json:"icmp6"`
-	DHCP       bool `json:"dhcp"`
-	DNS        bool `json:"dns"`
-	DHCPMode   int  `json:"dhcp_mode"`
-	DNSAlt     bool `json:"dns_alt"`
-	LeaseFile  bool `json:"lease_file"`
-	Debug      bool `json:"debug"`
-	PreemptN   int  `json:"preempt_n"`
-	HintMax    int  `json:"hint_max"`
-	StallDen   int  `json:"stall_den"`
-	Concurrent bool `json:"concurrent"`
+	HomeBits      int  `json:"home_bits"`
+	NFBits        int  `json:"nf_bits"`
+	NFLow         bool `json:"nf_low,omitempty"` // the netfilter subnet is the first (not the last) subnet of NFBits inside home: same network address as home, router inside it
+	HostLLA       bool `json:"host_lla"`
+	HostGUA       bool `json:"host_gua"`
+	ProbeMin      int  `json:"probe_min"`
+	OfflineMin    int  `json:"offline_min"`
+	PurgeMin      int  `json:"purge_min"`
+	ARP           bool `json:"arp"`
+	ICMP6         bool `json:"icmp6"`
+	DHCP          bool `json:"dhcp"`
+	DNS           bool `json:"dns"`
+	DHCPMode      int  `json:"dhcp_mode"`
+	DNSAlt        bool `json:"dns_alt"`
+	LeaseFile     bool `json:"lease_file"`
+	Debug         bool `json:"debug"`
+	LogErrorsOnly bool `json:"log_errors_only,omitempty"` // loggers at error level (default: info; Debug: debug)
+	PreemptN      int  `json:"preempt_n"`
+	HintMax       int  `json:"hint_max"`
+	StallDen      int  `json:"stall_den"`
+	Concurrent    bool `json:"concurrent"`
 	// ReuseBuf: the packet loop reads every frame into one buffer and overwrites it with garbage
 	// after Parse/ProcessPacket/Notify returned (what a real read loop's next ReadFrom does)
 	ReuseBuf bool `json:"reuse_buf"`
